@@ -501,18 +501,22 @@ func c03Specs(tier string) []*clustermc.Spec {
 		n0, r, table int
 		leaves       bool
 		rr           bool
+		bg           bool // a key in every one of 7 partitions, written in the initial state
 	}
-	cfs := []cf{{1, 1, 1 << 16, false, false}, {2, 2, 128, true, false}, {1, 2, 128, false, false},
+	cfs := []cf{{1, 1, 1 << 16, false, false, false}, {2, 2, 128, true, false, false}, {1, 2, 128, false, false, false},
 		// read-repair on: a Get during a hand-over writes to the members it found stale
-		{2, 2, 1 << 16, false, true}, {1, 1, 128, false, true}}
+		{2, 2, 1 << 16, false, true, false}, {1, 1, 128, false, true, false},
+		// seven partitions with a key in each, from one member to three: some partition moves twice
+		// (first owner -> second -> third) before the first owner has handed anything over
+		{1, 1, 128, false, false, true}}
 	depth, maxN := 6, 3
 	if !quick {
 		depth = 8
-		cfs = append(cfs, cf{1, 1, 128, false, false}, cf{2, 1, 1 << 16, false, false}, cf{2, 2, 1 << 16, true, false})
+		cfs = append(cfs, cf{1, 1, 128, false, false, false}, cf{2, 1, 1 << 16, false, false, false}, cf{2, 2, 1 << 16, true, false, false})
 	}
 	// three replicas: a backup partition has two current owners, a join changes the closest-3 set
 	// and a backup fragment is handed to BOTH of them; explored from 3 to 4 members, less deep
-	cfs = append(cfs, cf{3, 3, 128, false, false})
+	cfs = append(cfs, cf{3, 3, 128, false, false, false})
 	var out []*clustermc.Spec
 	for _, c := range cfs {
 		depth, maxN := depth, maxN
@@ -522,10 +526,16 @@ func c03Specs(tier string) []*clustermc.Spec {
 			// partitions on 4 members: an input the library does not support, see DESIGN 14)
 			depth, maxN, parts = depth-3, 4, 7
 		}
-		p := &c03Params{Name: fmt.Sprintf("N0=%d R=%d table=%d leaves=%v", c.n0, c.r, c.table, c.leaves), Depth: depth, MaxN: maxN, Leaves: c.leaves, Background: c.r == 3,
+		if c.bg {
+			parts = 7
+		}
+		p := &c03Params{Name: fmt.Sprintf("N0=%d R=%d table=%d leaves=%v", c.n0, c.r, c.table, c.leaves), Depth: depth, MaxN: maxN, Leaves: c.leaves, Background: c.r == 3 || c.bg,
 			Opts: simcluster.Opts{N: c.n0, Replicas: c.r, WriteQ: 1, ReadQ: 1, Partitions: parts, TableSize: c.table, ReadRepair: c.rr}}
 		if c.rr {
 			p.Name += " read-repair"
+		}
+		if c.bg {
+			p.Name += " key-in-every-partition"
 		}
 		proto := &c03Sys{P: p}
 		out = append(out, &clustermc.Spec{
